@@ -17,7 +17,10 @@ import (
 	"path/filepath"
 	"reflect"
 	"sort"
+	"strconv"
 	"strings"
+	"sync"
+	"sync/atomic"
 	"testing"
 	"unsafe"
 
@@ -326,6 +329,60 @@ func (in *c05Interp) exec(line string) string {
 			in.s.Add("bucket-population:"+c05PopClass(n), c)
 		}
 		return fmt.Sprintf("file %d %016x size=%d open=%v", len(data), xxhash.Sum64(data), size, opened)
+	case "chas":
+		// every added signature (at most 6000 of them) asked of each reader by 8 goroutines at once, w[1] rounds
+		if len(in.readers) == 0 {
+			return "nofile"
+		}
+		rounds, _ := strconv.Atoi(w[1])
+		var ms [][64]byte
+		for m := range in.added {
+			ms = append(ms, m)
+		}
+		sort.Slice(ms, func(i, j int) bool { return bytes.Compare(ms[i][:], ms[j][:]) < 0 })
+		if len(ms) > 6000 {
+			ms = ms[:6000]
+		}
+		res := "ok"
+		for ri, rd := range in.readers {
+			var bad atomic.Int64
+			var first atomic.Pointer[[64]byte]
+			var wg sync.WaitGroup
+			for gi := 0; gi < 8; gi++ {
+				wg.Add(1)
+				go func(gi int) {
+					defer wg.Done()
+					defer func() {
+						if r := recover(); r != nil {
+							bad.Add(1)
+						}
+					}()
+					for r := 0; r < rounds; r++ {
+						for i := range ms {
+							m := ms[(i*7+gi*131)%len(ms)]
+							got, err := rd.Has(m)
+							if err != nil || !got {
+								if bad.Add(1) == 1 {
+									first.Store(&m)
+								}
+							}
+						}
+					}
+				}(gi)
+			}
+			wg.Wait()
+			in.s.Add("concurrent-member-lookups:"+in.rnames[ri], 8*rounds*len(ms))
+			if n := bad.Load(); n > 0 {
+				res = "mismatch"
+				var f [64]byte
+				if p := first.Load(); p != nil {
+					f = *p
+				}
+				in.s.Violation(fmt.Sprintf("false negative under concurrent lookups: %d of %d lookups of ADDED signatures on one shared %s Reader (%s) answered false / error when 8 goroutines ask at once (first: %x); sequentially every one of them answers true", n, 8*rounds*len(ms), in.fmt, in.rnames[ri], f),
+					fmt.Sprintf("C05:false-negative:concurrent:%s:%s", in.fmt, in.rnames[ri]), in.s.Replay(in.caseOps))
+			}
+		}
+		return res
 	case "has":
 		if len(in.readers) == 0 {
 			return "nofile"
@@ -546,6 +603,7 @@ func (g *c05Gen) buildCase(name, format string, nmeta int, members [][64]byte, d
 	g.probes("whas", members, mstep*(1+len(members)/2000), used, nAbsent/4+1)
 	g.emit("seal")
 	g.probes("has", members, mstep, used, nAbsent)
+	g.emit("chas 2") // the same Reader shared by several goroutines (epoch.go shares one per epoch between requests)
 	g.probes("whas", members, 1+len(members)/500, used, 2) // the writer after Seal (its slices were sorted in place)
 }
 
@@ -638,6 +696,23 @@ func (g *c05Gen) generate(thorough bool) {
 		}
 		g.buildCase("prefix-rows", "v1", 1, ms, 10, 60)
 		g.buildCase("prefix-rows", "v2", 1, ms, 10, 60)
+	}
+	// a bucket well above any per-bucket allocation hint (1500, 1100) with populated numeric neighbours on both sides
+	{
+		var ms [][64]byte
+		for i := 0; i < 1500; i++ {
+			ms = append(ms, g.sig(0x4321))
+		}
+		for i := 0; i < 1100; i++ {
+			ms = append(ms, g.sig(0xfffe))
+		}
+		for _, p := range []uint16{0x4320, 0x4322, 0xfffd, 0xffff, 0x0000, 0x4421, 0x4221} {
+			for i := 0; i < 4; i++ {
+				ms = append(ms, g.sig(p))
+			}
+		}
+		g.buildCase("heavy-with-neighbours", "v2", 1, ms, 10, 60)
+		g.buildCase("heavy-with-neighbours", "v1", 1, ms, 10, 60)
 	}
 	n := 20000
 	if thorough {
